@@ -535,6 +535,27 @@ def _s_bor(eng, st, a, b):
   return bitop(eng, st, ast.BitOr(), a, b, None)
 
 
+@specfn("invert")
+def _s_invert(eng, st, x, m):
+  """gmpy2.invert(x, m) as a term (same uninterpreted function as the engine uses for the call)."""
+  return INV(to_z3(eng.need_int(st, x)), to_z3(eng.need_int(st, m)))
+
+
+@specfn("invert_k")
+def _s_invert_k(eng, st, x, m):
+  """The cofactor k of the inverse: x * invert(x, m) == 1 + m * k (when the inverse exists)."""
+  return INV_K(to_z3(eng.need_int(st, x)), to_z3(eng.need_int(st, m)))
+
+
+@specfn("defined")
+def _s_defined(eng, st, name):
+  """True iff the local variable `name` is bound on the current path (used to guard hints to one return site)."""
+  for fr in st.frames[:1]:
+    if name in fr.env:
+      return True
+  return False
+
+
 @specfn("used_urandom")
 def _s_used_urandom(eng, st):
   """True iff os.urandom was called on the current path (ghost flag maintained by the os.urandom theory)."""
